@@ -23,12 +23,51 @@ def build_cases(tier, seed):
     return cases
 
 
+def _pairs(net, interp):
+    """(description, cell component, plain-set component) for cells coloured by a one-line set that is
+    directly followed by a plain `set` of the same registers."""
+    out = []
+    if interp is None:
+        return out
+    vt, rt = [e for e in net.trace if e[0] != 'get_color' or True], interp.trace
+    for i in range(len(rt) - 1):
+        if i in interp.inline_tiles and rt[i + 1][0] == 'color' and i + 1 < len(vt) and vt[i][0] == 'tile' and vt[i + 1][0] == 'color':
+            plain = vt[i + 1][2]
+            for ci, (spec_cell, got_cell) in enumerate(zip(rt[i][2], vt[i][2])):
+                if isinstance(spec_cell, R.Painted) and got_cell is not None:
+                    for j in range(4):
+                        out.append(('ev%d:tile cell %d[%d] equals the plain set' % (i, ci, j), got_cell[j], plain[j]))
+    return out
+
+
+def same_as_plain_set(ctx, net, interp, cons):
+    """Cells coloured by the one-line form carry exactly the colour a plain `set` of the same registers transmits."""
+    from vlib import symx
+    for desc, a, b in _pairs(net, interp):
+        cons.append((desc, symx.eq(a, b), None))
+    return None
+
+
+def same_as_plain_set_concrete(net, interp):
+    for desc, a, b in _pairs(net, interp):
+        if a != b:
+            return '%s: cell %r, plain set %r' % (desc, a, b)
+    return None
+
+
+def worker(args):
+    args = dict(args)
+    args['extra_sym'] = same_as_plain_set
+    args['extra_concrete'] = same_as_plain_set_concrete
+    return common.script_worker(args)
+
+
 def run(tier, seed):
     t0 = time.time()
     cases = build_cases(tier, seed)
     items = [{'case': c, 'timeout_ms': 6000, 'max_paths': 400 if tier == 'quick' else 3000,
               'budget_s': 12 if tier == 'quick' else 120} for c in cases]
-    results, skipped = report.run_pool(common.script_worker, items, budget_s=common.tier_budget(tier, 70, 900))
+    results, skipped = report.run_pool(worker, items, budget_s=common.tier_budget(tier, 70, 900))
     return report.finish(
         PROP, tier, seed, 'exploration', results, skipped,
         rule='work item = one addressing program (zone range, inline row/column form in either order, begin/stage/end block with up to 3 '
